@@ -133,6 +133,11 @@ func (d *Defs) attr(o string) (GenDef, bool) {
 
 func (d *Defs) validate(id string, live map[string]bool, h uint64) string {
 	t := d.Txs[id]
+	for _, o := range t.Outs {
+		if o.Zone == "inactive" {
+			return "inactive" // addQiTxs refuses it at once
+		}
+	}
 	if len(t.Ins) == 0 {
 		return "noinputs"
 	}
